@@ -102,8 +102,8 @@ IT_ACTIONS = ["H_Begin", "H_Store", "H_Wake", "N_Begin", "N_Store", "N_Wake", "C
               "C_Cb", "C_Flush", "C_Scan", "C_ScanDone", "C_PClosed", "C_PPoll", "C_RetPending",
               "C_Return"]
 
-MODEL_INV = {"C09": ["NoLostWakeup"], "C10": ["YieldBounded"],
-             "C11": ["PendingOnlyIfConsulted", "CloseUnblocks"]}
+MODEL_INV = {"C09": ["NoLostWakeup", "ParkedIsArmed"], "C10": ["YieldBounded"],
+             "C11": ["PendingOnlyIfConsulted", "CloseUnblocks", "ParkedIsArmed", "ParkedWokenByClose"]}
 
 
 def extract_params():
@@ -112,7 +112,7 @@ def extract_params():
     sig, _, _ = harness("iterator", "--signature")
     stale = []
     c = dict(ActionOrder="store_then_wake", ConsumerOrder="drain_then_scan",
-             CloseOrder="flag_then_wake", PollRecheck=True)
+             CloseOrder="flag_then_wake", PollRecheck=True, CbArms=True)
 
     def pos(steps, pred):
         return next((i for i, x in enumerate(steps) if pred(x)), None)
